@@ -872,7 +872,11 @@ class OverlayStore(Store):
                 return self.overlay.get_metadata(key)
             else:
                 return self.fallback.get_metadata(key)
-        raise KeyNotFoundStoreException(key=key, store=self)
+        try:
+            # removed, but metadata may have been written through the overlay since (the fallback stays masked)
+            return self.overlay.get_metadata(key)
+        except Exception:
+            raise KeyNotFoundStoreException(key=key, store=self)
 
     def _unremove(self, key):
         """Forget removal marks of the key and of its ancestors (the key is being created again)."""
@@ -893,7 +897,11 @@ class OverlayStore(Store):
             and self.fallback.contains(key)
             and not self.fallback.is_dir(key)
         )
-        self._unremove(key)
+        if key in self.removed and not self.overlay.contains(key):
+            # metadata alone does not bring removed data back: the fallback's entry stays masked until data is stored
+            self._unremove(parent_key(key))
+        else:
+            self._unremove(key)
         if copy_up:
             # the entry lives in the fallback only: copy it up, so that the data stays readable
             self.overlay.store(key, self.fallback.get_bytes(key), metadata)
